@@ -129,6 +129,12 @@ def triage(eng, prop, ob, ctx):
                 extra["expect_raise"] = nm[len("no-raise:"):].split("@")[0]
         if ob.kind in ("invariant-entry", "invariant-preserve", "precondition", "loop-body", "frame", "termination"):
             kind = "internal"
+        if ob.kind == "call-site":
+            kind = "call-site"
+            callee = ob.name.split("::", 1)[-1].split(":")[1]
+            extra["callee"] = callee
+            for ev in ob.state.trace:
+                pass
         try:
             models = cex.candidate_models(eng, ob, penv, entry)
         except Exception as e:  # noqa
@@ -142,6 +148,11 @@ def triage(eng, prop, ob, ctx):
                 if stubs:
                     extra["stubs"] = stubs
                 wrap = []
+                if kind == "call-site":
+                    for m_ in eng.repo.modules.values():
+                        for f_ in list(m_.funcs.values()) + [mm for c_ in m_.classes.values() for mm in c_.methods.values()]:
+                            if f_.qualname == extra.get("callee"):
+                                wrap.append(f_.key)
                 for ev in ob.state.trace:
                     if not isinstance(ev, cex.LoopSegment) and ev.target == "call" and getattr(ev, "key", None) \
                             and ev.method in (ob.clause or "") and ev.key not in wrap:
